@@ -65,6 +65,28 @@ pub fn collision_games() -> Vec<(String, Tree)> {
         "wide_shared_nondyadic".into(),
         p(0, "root", vec![("a", p(1, "z", vec![("l", t(0.1)), ("r", t(-0.7))])), ("b", p(1, "z", vec![("l", t(-0.3)), ("r", t(1.1))])), ("c", p(1, "z", vec![("l", t(0.9)), ("r", t(-0.2))]))]),
     ));
+    // external sampling only hands out tasks when a frontier level survives one sampled step: a
+    // player-one root with k actions over one shared player-two infoset, each followed by a
+    // player-one decision (own move remembered). The tasks are player-two nodes of ONE infoset.
+    for k in [3usize, 4] {
+        let acts: Vec<(String, Tree)> = (0..k)
+            .map(|i| {
+                let own = |j: usize| Tree::P(0, format!("s{}", i), vec![("u".to_string(), t((i * 2 + j) as f64 - 2.0)), ("d".to_string(), t(1.5 - (i + 2 * j) as f64))]);
+                (format!("r{}", i), Tree::P(1, "z".to_string(), vec![("l".to_string(), own(0)), ("r".to_string(), own(1))]))
+            })
+            .collect();
+        res.push((format!("shared_then_own_{}", k), Tree::P(0, "root".to_string(), acts)));
+    }
+    // the mirror image: player two at the root, player one's shared infoset in the middle
+    {
+        let acts: Vec<(String, Tree)> = (0..3usize)
+            .map(|i| {
+                let own = |j: usize| Tree::P(1, format!("s{}", i), vec![("u".to_string(), t((i + j) as f64 - 1.0)), ("d".to_string(), t(0.5 - (i * j) as f64))]);
+                (format!("r{}", i), Tree::P(0, "z".to_string(), vec![("l".to_string(), own(0)), ("r".to_string(), own(1))]))
+            })
+            .collect();
+        res.push(("shared_then_own_mirror_3".into(), Tree::P(1, "root".to_string(), acts)));
+    }
     res.push(("matching_pennies".into(), crate::universe::matching_pennies()));
     res.push(("binary_depth_3".into(), kary_alternating(2, 3)));
     res
